@@ -169,7 +169,7 @@ package ratelimit
 //@   props C03 C13
 //@   holds tl.mutex
 //@   requires ratesOK(tl.defaultRates)
-//@   modifies everything
+//@   modifies external
 //@   ensures rates_ok: ratesOK(result)
 //@   ensures default_without_extractor: tl.extractRates == nil ==> result == tl.defaultRates
 
@@ -226,7 +226,7 @@ package ratelimit
 //@ func (*RateErrHandler).ServeHTTP
 //@   props C13 C20
 //@   requires w != nil && (istype(err, "*MaxRateError") ==> payload(err) != 0)
-//@   modifies everything
+//@   modifies external
 //@   ensures rate_error_is_429: istype(err, "*MaxRateError") ==> calls(w.WriteHeader) == 1 && callarg(w.WriteHeader, 0, 0) == 429 && calls(w.Write) == 1 && before(w.WriteHeader, w.Write)
 //@   ensures other_errors_delegated: !istype(err, "*MaxRateError") ==> calls(w.WriteHeader) == 0 && calls(DefaultHandler.ServeHTTP) == 1
 //@   at_call w.WriteHeader advertised_wait: header(callres(w.Header, 1, 0), "X-Retry-In") == durstring(asref(payload(err), "*MaxRateError").Delay)
